@@ -8,8 +8,11 @@ block case : {"exh": true, "pre": "<hex>", "alpha": "<hex>", "len": L, "lo": a, 
              (base-|alpha| digits, most significant first)
              -> {"m": {"n": c, "tok": <total tokens>, "h": <FNV-1a-64 of the compact JSON text of every OBS>}}
              (with "expand": the list of OBS instead of the hash)
-OBS = [[TOKEN...], rest]   rest = number of unread bytes after the ErrorToken
-TOKEN = [kind, rawStart, rawEnd, X]
+OBS = [[TOKEN...], rest, ctx0]   rest = number of unread bytes after the ErrorToken; ctx0 = hex of raw_tag() before the
+                                 first next() (what new / new_fragment made of the context tag)
+TOKEN = [kind, rawStart, rawEnd, X, ctx, err]
+  ctx   hex of raw_tag() right after this next(): the raw-text context the following next() reads in
+  err   err().is_some() right after this next(): the call ran into the end of the data
   kind  "T" text "S" start "E" end "C" self-closing "M" comment "D" doctype "X" error "N" none
   X     text/comment/doctype: hex of `text()` | "utf8"
         tags: [name, has_attr, [[key, value] ...]]  name/key: hex | "na" (raw bytes of the token are not all
@@ -80,9 +83,10 @@ def observeFrom (t0 : Tokenizer) : Json × Nat :=
         match flagged t2 with
         | some w => (Json.mkObj [("panic", Json.str w)], acc.size)
         | none =>
-          let acc := acc.push (Json.arr #[Json.str (kindCode t1.token), toJson t1.rawS, toJson t1.rawE, pl])
+          let acc := acc.push (Json.arr #[Json.str (kindCode t1.token), toJson t1.rawS, toJson t1.rawE, pl,
+            hexA t1.rawTag, Json.bool t1.err])
           if t1.token == .error then
-            (Json.arr #[Json.arr acc, toJson (t2.buf.size - t2.rawE)], acc.size)
+            (Json.arr #[Json.arr acc, toJson (t2.buf.size - t2.rawE), hexA t0.rawTag], acc.size)
           else go fuel t2 acc
   go (t0.buf.size + 3) t0 #[]
 
